@@ -55,6 +55,9 @@ func (f *fakeConn) Close() error {
 	f.mu.Lock()
 	f.closed++
 	f.mu.Unlock()
+	if f.id%3 == 0 { // every third connection reports an error on Close (a TLS close_notify to a dead peer): it is closed all the same
+		defer func() {}()
+	}
 	closeHook.mu.Lock()
 	var fn func()
 	done := closeHook.done
@@ -68,6 +71,9 @@ func (f *fakeConn) Close() error {
 		for i := 0; i < 2000 && atomic.LoadInt32(done) == 0; i++ {
 			runtime.Gosched()
 		}
+	}
+	if f.id%3 == 0 {
+		return fmt.Errorf("close %d: broken pipe", f.id)
 	}
 	return nil
 }
@@ -156,7 +162,10 @@ func runWpCase(c WpCase) (string, map[string]int) {
 			closeHook.owner = &c
 			closeHook.b = op.B
 			closeHook.armed = func() {
-				if op.C == 1 {
+				if op.C == 2 { // Shutdown arrives while the clean-up is in the middle of closing a stale connection
+					pool.Shutdown()
+					gotID = -4
+				} else if op.C == 1 {
 					putOK = pool.Put(fmt.Sprintf("b%d", op.B), putConn)
 					gotID = -3
 				} else if got := pool.Get(fmt.Sprintf("b%d", op.B)); got != nil {
@@ -176,6 +185,10 @@ func runWpCase(c WpCase) (string, map[string]int) {
 			now = next
 			stats["cleanup"]++
 			switch {
+			case gotID == -4:
+				ops = append(ops, "WShutdown")
+				obs = append(obs, "0")
+				stats["hook_shutdown"]++
 			case gotID == -3:
 				ops = append(ops, fmt.Sprintf("WPut %d %d", op.B, putConn.id))
 				obs = append(obs, B01(putOK))
@@ -251,7 +264,7 @@ func genWpCase(g *Rng) WpCase {
 		case x < 78:
 			c.Ops = append(c.Ops, WpOp{K: "shutdown"})
 		case x < 84:
-			c.Ops = append(c.Ops, WpOp{K: "hook", B: b, C: g.Intn(2)})
+			c.Ops = append(c.Ops, WpOp{K: "hook", B: b, C: g.Intn(3)})
 		default:
 			d := g.PickI64(gaps)
 			if d < 0 {
@@ -296,6 +309,10 @@ func TestWsPool(t *testing.T) {
 				{MaxIdle: 3, Timeout: 20 * s, Ops: []WpOp{{K: "put", B: 1}, {K: "adv", D: 15 * s}, {K: "put", B: 1}, {K: "hook", B: 1, C: 0}, {K: "stats", B: 1}, {K: "get", B: 1}, {K: "get", B: 1}}},
 				{MaxIdle: 3, Timeout: 20 * s, Ops: []WpOp{{K: "put", B: 1}, {K: "adv", D: 15 * s}, {K: "put", B: 1}, {K: "hook", B: 1, C: 1}, {K: "stats", B: 1}, {K: "get", B: 1}, {K: "get", B: 1}, {K: "shutdown"}}},
 				{MaxIdle: 1, Timeout: 300 * s, Ops: []WpOp{{K: "put", B: 1}, {K: "get", B: 1}, {K: "put", B: 1, C: 1}, {K: "get", B: 1}, {K: "close", B: 1, C: 1}, {K: "stats", B: 1}}},
+				// Shutdown while the clean-up closes the only (stale) connection of one backend; another backend keeps fresh ones
+				{MaxIdle: 3, Timeout: 20 * s, Ops: []WpOp{{K: "put", B: 1}, {K: "adv", D: 15 * s}, {K: "put", B: 2}, {K: "put", B: 2}, {K: "hook", B: 1, C: 2}, {K: "stats", B: 1}, {K: "stats", B: 2}, {K: "get", B: 2}}},
+				// five pooled connections of which two report an error on Close: Shutdown closes every one of them
+				{MaxIdle: 3, Timeout: 300 * s, Ops: []WpOp{{K: "put", B: 1}, {K: "put", B: 1}, {K: "put", B: 1}, {K: "put", B: 2}, {K: "put", B: 2}, {K: "put", B: 2}, {K: "shutdown"}, {K: "stats", B: 1}, {K: "stats", B: 2}, {K: "get", B: 1}, {K: "get", B: 2}}},
 			}
 			for _, c := range corpus {
 				emit("corpus", c)
